@@ -112,8 +112,14 @@ fn check_set(ms: &[GlobMatcher], set: &GlobSet, c: &Candidate<'_>) -> Option<Str
     if got != want {
         return Some(format!("GlobSet::matches gives {:?}, the globs one by one give {:?}", got, want));
     }
-    let mut into = vec![];
+    // "into is cleared before matching begins": hand over a vector that still holds an old answer
+    let mut into = vec![usize::MAX, 7];
     set.matches_candidate_into(c, &mut into);
+    let mut stale = vec![usize::MAX, 7];
+    GlobSet::empty().matches_candidate_into(c, &mut stale);
+    if !stale.is_empty() {
+        return Some(format!("GlobSet::empty().matches_into leaves stale entries {:?} in the caller's vector", stale));
+    }
     into.sort();
     if into != want {
         return Some(format!("GlobSet::matches_into gives {:?}, the globs one by one give {:?}", into, want));
@@ -186,7 +192,15 @@ fn mode_single(max_tokens: usize, max_path: usize) -> Option<Failure> {
 
 fn mode_pairs(max_tokens: usize, max_path: usize) -> Option<Failure> {
     let mut pool = words(TOKENS, 2);
-    pool.extend(words(SMALL_TOKENS, max_tokens).into_iter().filter(|w| w.len() > 2 || !pool_contains(w)));
+    pool.extend(words(SMALL_TOKENS, max_tokens.min(3)).into_iter().filter(|w| w.len() > 2 || !pool_contains(w)));
+    if max_tokens >= 4 {
+        // longer literals in prefix / suffix shape (one literal may sit inside another): lit*, lit/**, *lit
+        for lit in words(&["a", "b", "/"], 3) {
+            pool.push(format!("{}*", lit));
+            pool.push(format!("{}/**", lit));
+            pool.push(format!("*{}", lit));
+        }
+    }
     pool.sort();
     pool.dedup();
     let ps = paths(max_path);
